@@ -313,6 +313,11 @@ ListObjectsClass(M, TS, ev) ==
      ELSE IF ev.limit = 0 \/ Cardinality(R) < ev.limit THEN
             IF X = R THEN <<"OK_LO", "">>
             ELSE IF \A i \in R \ X : kf(i) THEN <<"KF_ExclSubtractCycle", ToString(R)>>
+            \* KF-18: the weighted engine with resolve-node breadth limit 1 starves itself when an
+            \* intersection / exclusion has more candidates than its hand-over channel holds (100)
+            ELSE IF "wb1" \in DOMAIN ev /\ ev.wb1 /\ Cardinality(ids) > 100
+                    /\ \E x \in SubRw(Rw(M, ev.t, ev.r)) : x.k \in {"inter", "diff"}
+                 THEN <<"KF_WeightedBreadthOneStarvation", ToString(Cardinality(R))>>
             ELSE IF AnyE(M, TS, ev.ctx) THEN <<"BAD_LO_INCOMPLETE_E", ToString(R)>>
             ELSE <<"BAD_LO_INCOMPLETE", ToString(R)>>
      ELSE IF Cardinality(X) = ev.limit THEN <<"OK_LO_LIMIT", "">>
